@@ -272,6 +272,33 @@ pub fn run(ctx: &Ctx) {
     for i in [0usize, work.len() / 3, work.len() / 2, work.len() - 1] {
         ctx.sample(json!({"kind": "values", "code": work[i].0, "vals": work[i].1}));
     }
+    // every value of every 8/16-bit field, walking bits of wider ones, mid-range lengths and counts
+    {
+        let total = std::sync::atomic::AtomicU64::new(0);
+        let schs: Vec<&'static schema::TypeSchema> = SCHEMAS.iter().collect();
+        par_shards(ctx, &schs, |sch, t: &mut Tally| {
+            let mut n = 0u64;
+            let mut stride = 0u64;
+            gen::field_sweep(sch, &mut |vals| {
+                stride += 1;
+                if !gen::vals_wire_representable(sch, vals) {
+                    return;
+                }
+                n += 1;
+                t.evals += 1;
+                t.transitions += 4;
+                t.nontrivial += 1;
+                let f = check_values(sch.code, vals);
+                if !f.is_empty() {
+                    t.outcome("disagree");
+                    ctx.violations(f);
+                }
+            });
+            let _ = stride;
+            total.fetch_add(n, std::sync::atomic::Ordering::Relaxed);
+        });
+        ctx.space("field sweep: every value of every 8-bit and 16-bit field, walking bits of 24/32/48-bit and fixed fields, mid-range string / tail / label lengths and list sizes", total.load(std::sync::atomic::Ordering::Relaxed), "complete");
+    }
     // rejection families
     let mut t = Tally::default();
     let mut n = 0u64;
